@@ -78,6 +78,9 @@ def run(chk):
     proved = chk.prove('props/C10.v', gens=gen())
     with vlib.WorkDir('c10') as wd:
         _run(chk, wd, proved)
+    # "never disturb another listener": rejection/re-buffering across pools and listeners is C09's correspondence
+    vlib.sub_check(chk, 'c09')
+    chk.coverage['rule'] += '; plus the C09 correspondence (event pools: a listener\'s rejection or exit concerns its own pool only)'
 
 
 def _run(chk, wd, proved):
